@@ -218,13 +218,28 @@ def dereorder(trees, notes):
             scopes = list(trees.values()) if len(lst) == 1 else [owners[scope]]
             for sc in scopes:
                 for c in ast.walk(sc):
-                    if not isinstance(c, ast.Call) or c.keywords or len(c.args) != n_call or any(isinstance(x, ast.Starred) for x in c.args):
+                    if not isinstance(c, ast.Call) or any(isinstance(x, ast.Starred) for x in c.args) or any(k.arg is None for k in c.keywords):
                         continue
                     f = c.func
-                    if is_method and isinstance(f, ast.Attribute) and f.attr == name and (len(lst) == 1 or (isinstance(f.value, ast.Name) and f.value.id == 'self')):
-                        c.args = [c.args[k - off] for k in perm[off:]]
-                    elif not is_method and isinstance(f, ast.Name) and f.id == name:
-                        c.args = [c.args[k] for k in perm]
+                    mine = (is_method and isinstance(f, ast.Attribute) and f.attr == name and (len(lst) == 1 or (isinstance(f.value, ast.Name) and f.value.id == 'self'))) \
+                        or (not is_method and isinstance(f, ast.Name) and f.id == name)
+                    if not mine:
+                        continue
+                    # bind by the CURRENT signature (positionals in order, keywords by name), emit positionally in the inventory's order
+                    cparams = cur[off:]
+                    bound = {}
+                    for i, x in enumerate(c.args):
+                        if i < len(cparams):
+                            bound[cparams[i]] = x
+                    dup = False
+                    for k in c.keywords:
+                        if k.arg in bound or k.arg not in cparams:
+                            dup = True
+                        bound[k.arg] = k.value
+                    if dup or len(c.args) > len(cparams) or set(bound) != set(cparams):
+                        continue
+                    c.args = [bound[p_] for p_ in inv[off:]]
+                    c.keywords = []
             notes.append(f'{scope}.{name}: parameters put back into the inventory order {inv}')
 
 
